@@ -144,12 +144,21 @@ def _build_base(cls, n, seed, opt, layout):
     if cls == "DenseSymmetric":
         a = g.standard_normal((n, n))
         a = L(a + a.T + np.diag(g.choice([-3, 3], n)))
-        if opt % 3 == 1:
+        if opt % 5 == 1:
             w, v = np.linalg.eigh(a)
             return Built(M.DenseSymmetricMatrix(a, v, w), [a, v, w])
-        if opt % 3 == 2:
+        if opt % 5 == 2:
             w, v = np.linalg.eigh(a)
             return Built(M.DenseSymmetricMatrix(a, M.OrthogonalMatrix(v), w), [a, v, w])
+        if opt % 5 == 3:
+            # only HALF of a precomputed decomposition, and not in eigh's (ascending) order
+            w, v = np.linalg.eigh(a)
+            v = L(np.array(v[:, ::-1]))
+            return Built(M.DenseSymmetricMatrix(a, eigvec=v), [a, v])
+        if opt % 5 == 4:
+            w, v = np.linalg.eigh(a)
+            w = np.array(w[::-1])
+            return Built(M.DenseSymmetricMatrix(a, eigval=w), [a, w])
         return Built(M.DenseSymmetricMatrix(a), [a])
     if cls == "Orthogonal":
         q = L(_orth(g, n))
